@@ -8,7 +8,7 @@
    Field table (header name -> raw key, kind): Gen/MetaTable.v (regenerated).  Statements only; proofs in Email/EmailFacts.v. *)
 From Coq Require Import String List Arith NArith Bool Lia Permutation.
 Import ListNotations.
-Require Import Show VParse MetaTable MetaSpecTable MetaBase MetaBaseFacts EmailModel EmailFacts.
+Require Import Show VParse MetaTable MetaSpecTable MetaBase MetaBaseFacts EmailModel EmailFacts EmailRound.
 Open Scope N_scope.
 
 (* 0. the header-name map and field kinds extracted from the working tree on this run are those of the core-metadata specification *)
@@ -35,6 +35,17 @@ Theorem C18_no_invention items :
   (forall m vs, lookup m (snd (loop_result items)) = Some vs -> In m (lnames items) /\ vs = map UStr (values items m)).
 Proof. exact (loop_no_invention items). Qed.
 Print Assumptions C18_no_invention.
+
+(* 2b. NO LOSS: the value of EVERY header of the document is held by the dict its name went to - verbatim in unparsed; in raw as the
+       string itself, as a list item, as the comma-split of itself (Keywords), or as its (label, url) pair (Project-URL) *)
+Theorem C18_no_value_dropped items i : In i items ->
+  let n := lower_name (i_name i) in
+  (exists vs, lookup n (snd (loop_result items)) = Some vs /\ In (UStr (i_val i)) vs) \/
+  (exists k v, lookup k (fst (loop_result items)) = Some v /\
+     (v = RStr (i_val i) \/ (exists l, v = RList l /\ (In (i_val i) l \/ l = parse_keywords (i_val i))) \/
+      (exists d, v = RDict d /\ In (split_url (i_val i)) d))).
+Proof. exact (every_value_kept items i). Qed.
+Print Assumptions C18_no_value_dropped.
 
 (* 3. TYPING and NO LOSS: a name goes to raw exactly when every value decoded, the name is a core-metadata header, and
       - single-use string field: it occurs once; raw holds that str verbatim
@@ -99,6 +110,35 @@ Theorem C18_body_touches_only_description items p k : k <> k_description ->
   lookup k (fst (post_email items p)) = lookup k (fst (loop_result items)) /\ lookup k (snd (post_email items p)) = lookup k (snd (loop_result items)).
 Proof. intros N. unfold post_email. now apply merge_other_keys. Qed.
 Print Assumptions C18_body_touches_only_description.
+
+(* 5. ROUND TRIP: serialise a well-formed RawMetadata [r] as RFC 822 headers - one header per string field, one per list item,
+      Keywords comma-joined, Project-URL as "label, url", header names in any capitalisation [spell], the description as the body -
+      and run parse_email's post-processing on it: unparsed is empty and raw is [r] (same keys, same values).
+      Oracle assumption: the e-mail parser returns exactly the serialised (name, value) pairs and the body.
+      [wf r]: distinct keys, every key a RawMetadata field with a value of its kind, lists / dicts / description non-empty, keywords and
+      labels without commas, keywords / labels / URLs without surrounding white space, labels distinct. *)
+Theorem C18_roundtrip spell r : (forall n, lower_name (spell n) = lower_name n) -> wf r ->
+  snd (post_email (ser_items spell r) (ser_payload r)) = [] /\
+  forall k, lookup k (fst (post_email (ser_items spell r) (ser_payload r))) = lookup k r.
+Proof. intros S W. now apply roundtrip. Qed.
+Print Assumptions C18_roundtrip.
+
+(* non-vacuity of [wf]: string, keywords, project urls (one with an empty URL), a list whose items contain commas and blanks, description *)
+Definition r_ex : list (list N * rawval) :=
+  [(asc "name", RStr (asc "a")); (asc "keywords", RList [asc "x"; asc "y z"]); (asc "description", RStr (asc "body"));
+   (asc "project_urls", RDict [(asc "Home", asc "http://h"); (asc "Docs", [])]); (asc "classifiers", RList [asc "A, B"; asc " C "])].
+Example C18_roundtrip_nonvacuous : wf r_ex.
+Proof.
+  split.
+  - vm_compute. repeat constructor; cbn [In]; intuition discriminate.
+  - intros kv [<-|[<-|[<-|[<-|[<-|[]]]]]]; eexists; eexists; (split; [vm_compute; reflexivity|]); cbn [snd fst].
+    + split; auto. intros H; vm_compute in H; discriminate H.
+    + split; [discriminate|]. right. split; auto. intros x [<-|[<-|[]]]; (split; [vm_compute; reflexivity | vm_compute; intuition discriminate]).
+    + split; auto. intros _. discriminate.
+    + split; auto. split; [discriminate|]. split; [vm_compute; repeat constructor; cbn [In]; intuition discriminate|].
+      intros p [<-|[<-|[]]]; (split; [vm_compute; reflexivity | split; [vm_compute; intuition discriminate | vm_compute; reflexivity]]).
+    + split; [discriminate|]. left. reflexivity.
+Qed.
 
 (* non-vacuity: two spellings of a repeated single-use header, a keywords header, duplicate Project-URL labels, an undecodable header, a body *)
 Definition it (n v : string) (ok : bool) := {| i_name := asc n; i_val := asc v; i_valid := ok |}.
